@@ -44,10 +44,13 @@ struct Chain {
     src: String,
     n: usize,
     missing_end: bool,
-    /// warning ids (variable names) with the knot they belong to and whether they precede the line
-    warns: Vec<(String, usize)>,
+    /// warning ids (variable names) with the knot they belong to and where in the knot they sit
+    /// (0 = logic line before the text line, 1 = inside the text line, 2 = in the choice body)
+    warns: Vec<(String, usize, u8)>,
     /// error knots
     errs: Vec<usize>,
+    /// error knots whose error sits inside the text line (the others fail after the line)
+    inline_errs: Vec<usize>,
 }
 
 fn gen_chain(t: &mut Tape) -> Chain {
@@ -91,6 +94,7 @@ fn gen_chain(t: &mut Tape) -> Chain {
     src.push_str("-> s0\n");
     let mut warns = vec![];
     let mut errs = vec![];
+    let mut inline_errs = vec![];
     let mut wn = 0;
     for (i, k) in specs.iter().enumerate() {
         src.push_str(&format!("=== s{i} ===\n"));
@@ -111,13 +115,13 @@ fn gen_chain(t: &mut Tape) -> Chain {
         for _ in 0..k.pre_warns {
             let nm = it.next().unwrap();
             src.push_str(&format!("~ acc = acc + {nm}\n"));
-            warns.push((nm, i));
+            warns.push((nm, i, 0));
         }
         let mut line = format!("Line {i}");
         if k.inline_warn {
             let nm = it.next().unwrap();
             line.push_str(&format!(" {{{nm}}}"));
-            warns.push((nm, i));
+            warns.push((nm, i, 1));
         }
         match k.inline_err {
             Some(ErrKind::DivZero) => line.push_str(" {1 / zero}"),
@@ -128,13 +132,14 @@ fn gen_chain(t: &mut Tape) -> Chain {
         src.push_str(&line);
         if k.inline_err.is_some() {
             errs.push(i);
+            inline_errs.push(i);
         }
         if k.choice {
             src.push_str(&format!("* [pick {i}]\n"));
             if k.choice_warn {
                 let nm = it.next().unwrap();
                 src.push_str(&format!("    Chosen {i} {{{nm}}}.\n"));
-                warns.push((nm, i));
+                warns.push((nm, i, 2));
             } else {
                 src.push_str(&format!("    Chosen {i}.\n"));
             }
@@ -163,6 +168,7 @@ fn gen_chain(t: &mut Tape) -> Chain {
         missing_end,
         warns,
         errs,
+        inline_errs,
     }
 }
 
@@ -181,10 +187,14 @@ pub fn exec(case: &J, acc: &mut Acc) -> Result<(), Fail> {
     let handler = case["handler"].as_bool().unwrap_or(false);
     let n = case["knots"].as_u64().unwrap_or(0) as usize;
     let missing_end = case["missing_end"].as_bool().unwrap_or(false);
-    let warns: Vec<(String, usize)> = case["warns"]
+    // (name, knot, place in the knot; cases saved before the place was recorded have None)
+    let warns: Vec<(String, usize, Option<u64>)> = case["warns"]
         .as_array()
-        .map(|a| a.iter().map(|w| (w[0].as_str().unwrap_or("").to_string(), w[1].as_u64().unwrap_or(0) as usize)).collect())
+        .map(|a| a.iter().map(|w| (w[0].as_str().unwrap_or("").to_string(), w[1].as_u64().unwrap_or(0) as usize, w[2].as_u64())).collect())
         .unwrap_or_default();
+    let inline_errs: Option<Vec<usize>> = case["inline_errs"]
+        .as_array()
+        .map(|a| a.iter().filter_map(|x| x.as_u64().map(|v| v as usize)).collect());
     let errs: Vec<usize> = case["errs"]
         .as_array()
         .map(|a| a.iter().filter_map(|x| x.as_u64().map(|v| v as usize)).collect())
@@ -202,7 +212,7 @@ pub fn exec(case: &J, acc: &mut Acc) -> Result<(), Fail> {
 
     // classify a message: Some(site id)
     let classify = |m: &str| -> Option<String> {
-        for (w, _) in &warns {
+        for (w, _, _) in &warns {
             if m.contains(&format!("'{w}'")) {
                 return Some(format!("W:{w}"));
             }
@@ -326,6 +336,43 @@ pub fn exec(case: &J, acc: &mut Acc) -> Result<(), Fail> {
                         }
                     }
                 }
+                // A message stops nothing but an error does: when an error is delivered, every
+                // warning site the flow went through on its way to the failing site (earlier knots
+                // of this play-through segment, and the sites of the failing knot that precede the
+                // error) has fired, in this continue or an earlier one, and must have been
+                // delivered exactly once by now - also a warning raised in the very continue
+                // that raised the error.
+                if let Some(inl) = &inline_errs {
+                    for (is_warning, m) in &msgs {
+                        if *is_warning {
+                            continue;
+                        }
+                        let failing: Option<(usize, bool)> = match classify(m).as_deref() {
+                            Some("E:end") => Some((n.saturating_sub(1), false)),
+                            Some(id) => id.strip_prefix("E:s").and_then(|x| x.parse::<usize>().ok()).map(|k| (k, inl.contains(&k))),
+                            None => None,
+                        };
+                        let Some((fk, inline)) = failing else { continue };
+                        for (w, k, place) in &warns {
+                            let Some(place) = place else { continue };
+                            let before = *k >= segment_start && (*k < fk || (*k == fk && (!inline || *place <= 1)));
+                            if before && delivered.get(&format!("{segment}:W:{w}")).copied().unwrap_or(0) != 1 {
+                                return Err(Ok(fail(
+                                    "not-delivered",
+                                    format!("the error of knot s{fk} was delivered ({m}) but the warning about '{w}' (knot s{k}, which the flow passed before it, segment started at s{segment_start}) never was"),
+                                )));
+                            }
+                        }
+                    }
+                }
+                // the constructor's warning (old ink version) is handed to the handler with the
+                // first delivery
+                if handler && old_version && steps == 1 && delivered.get("0:W:version").copied().unwrap_or(0) != 1 {
+                    return Err(Ok(fail(
+                        "not-delivered",
+                        format!("the constructor's version warning was not handed to the handler with the first delivery ({:?})", msgs),
+                    )));
+                }
                 if let Ok(text) = &r {
                     for i in 0..n {
                         if text.contains(&format!("Line {i} ")) || text.contains(&format!("Line {i}\n")) || text.trim_end() == format!("Line {i}") {
@@ -384,7 +431,7 @@ pub fn exec(case: &J, acc: &mut Acc) -> Result<(), Fail> {
         // exactly-once for passed sites of the last play-through segment
         let seg = segment;
         if furthest_line >= 0 {
-            for (w, k) in &warns {
+            for (w, k, _) in &warns {
                 // only sites of knots the story went through in this segment
                 let passed = *k >= segment_start && (*k as i64) < furthest_line;
                 if passed && delivered.get(&format!("{seg}:W:{w}")).copied().unwrap_or(0) != 1 {
@@ -435,8 +482,8 @@ pub fn cases_from_tape(tape: &[u16]) -> Vec<J> {
         .map(|handler| {
             json!({
                 "source": chain.src, "knots": chain.n, "missing_end": chain.missing_end,
-                "warns": chain.warns.iter().map(|(w, k)| json!([w, k])).collect::<Vec<_>>(),
-                "errs": chain.errs, "policy": policy, "handler": handler,
+                "warns": chain.warns.iter().map(|(w, k, p)| json!([w, k, p])).collect::<Vec<_>>(),
+                "errs": chain.errs, "inline_errs": chain.inline_errs, "policy": policy, "handler": handler,
                 "old_version": tape.first().map(|v| v % 5 == 0).unwrap_or(false),
             })
         })
